@@ -19,6 +19,9 @@
  *        ordered by complete_cpuset, which differs from the cpuset order
  *   S13: Machine{ Group{Core{PU0} Core{PU1} +NUMA0 +Misc} Group{Core{PU2} Core{PU5} +NUMA1} } (+Misc below Core0): a restrict that leaves one Core per
  *        Group makes the Group level redundant: it is merged away and its memory and Misc children move to the Cores
+ *   S14: S1 with an L2 (filtered KEEP_STRUCTURE) below each Package with the same cpuset, and Misc objects attached (MISC phase of a second
+ *        backend, before the final reconnect) below the L2s and below Package1: the L2 level is merged into the Packages (the CHILD is the
+ *        one removed), its Misc children join those of the Package
  *   S6: asymmetric, L2 filtered KEEP_STRUCTURE: Package0{L2{PU0}} Package1{L2{Core{PU1}}} Package2{Core{PU2}} +NUMA0 on the machine:
  *       the L2 and Core levels have the same width and only arity-1 parents but are NOT pairwise parent/child: nothing may be merged
  *   S7: L2 filtered KEEP_STRUCTURE above a Core with the same cpuset, twice: L2{Core{PU0 PU1} +NUMA0} L2{Core{PU2 PU5} +NUMA1}:
@@ -141,6 +144,16 @@ static int vp_seed_discover(struct hwloc_backend *b, struct hwloc_disc_status *d
     s->numa[0] = vp_ins(t, HWLOC_OBJ_NUMANODE, 0, 0x03, 0x1); s->numa[1] = vp_ins(t, HWLOC_OBJ_NUMANODE, 1, 0x24, 0x2);
     return 0;
   }
+  if (vp_seed_id == 14) {
+    s->pu[0] = vp_ins(t, HWLOC_OBJ_PU, 0, 0x01, 0); s->pu[1] = vp_ins(t, HWLOC_OBJ_PU, 1, 0x02, 0);
+    s->pu[2] = vp_ins(t, HWLOC_OBJ_PU, 2, 0x04, 0); s->pu[3] = vp_ins(t, HWLOC_OBJ_PU, 5, 0x20, 0);
+    s->pkg[0] = vp_ins(t, HWLOC_OBJ_PACKAGE, 0, 0x03, 0); s->pkg[1] = vp_ins(t, HWLOC_OBJ_PACKAGE, 1, 0x24, 0);
+    for (unsigned k = 0; k < 2; k++) { hwloc_obj_t c = hwloc_alloc_setup_object(t, HWLOC_OBJ_L2CACHE, HWLOC_UNKNOWN_INDEX); c->cpuset = vp_bm(k ? 0x24 : 0x03);
+      c->attr->cache.depth = 2; c->attr->cache.type = HWLOC_OBJ_CACHE_UNIFIED; c->attr->cache.size = 1024; c->attr->cache.linesize = 64;
+      hwloc_obj_t r = hwloc__insert_object_by_cpuset(t, NULL, c, NULL); VP_ASSUME(r == c); s->obj[s->nobj++] = c; s->core[k] = c; }
+    s->numa[0] = vp_ins(t, HWLOC_OBJ_NUMANODE, 0, 0x03, 0x1); s->numa[1] = vp_ins(t, HWLOC_OBJ_NUMANODE, 1, 0x24, 0x2);
+    return 0;
+  }
   if (vp_seed_id == 10) {
     s->pu[0] = vp_ins(t, HWLOC_OBJ_PU, 0, 0x01, 0); s->pu[1] = vp_ins(t, HWLOC_OBJ_PU, 1, 0x02, 0);
     s->pu[2] = vp_ins(t, HWLOC_OBJ_PU, 2, 0x04, 0); s->pu[3] = vp_ins(t, HWLOC_OBJ_PU, 5, 0x20, 0);
@@ -191,6 +204,8 @@ static int vp_seed_discover_io(struct hwloc_backend *b, struct hwloc_disc_status
   if (vp_seed_id >= 100) return VP_SEED_IO_HOOK(b, d);
 #endif
   if (vp_seed_id == 11) { vp_ins_child(t, s->pkg[1], HWLOC_OBJ_MISC, HWLOC_UNKNOWN_INDEX); vp_ins_child(t, s->numa[1], HWLOC_OBJ_MISC, HWLOC_UNKNOWN_INDEX); s->misc = vp_ins_child(t, s->pu[3], HWLOC_OBJ_MISC, HWLOC_UNKNOWN_INDEX); return 0; }
+  if (vp_seed_id == 14) { vp_ins_child(t, s->core[0], HWLOC_OBJ_MISC, HWLOC_UNKNOWN_INDEX); vp_ins_child(t, s->pkg[1], HWLOC_OBJ_MISC, HWLOC_UNKNOWN_INDEX);
+    vp_ins_child(t, s->core[1], HWLOC_OBJ_MISC, HWLOC_UNKNOWN_INDEX); s->misc = vp_ins_child(t, s->core[1], HWLOC_OBJ_MISC, HWLOC_UNKNOWN_INDEX); return 0; }
   if (vp_seed_id == 13) { vp_ins_child(t, s->pkg[0], HWLOC_OBJ_MISC, HWLOC_UNKNOWN_INDEX); s->misc = vp_ins_child(t, s->core[0], HWLOC_OBJ_MISC, HWLOC_UNKNOWN_INDEX); return 0; }
   if (vp_seed_id != 2) return 0;
   s->bridge = vp_ins_child(t, s->pkg[0], HWLOC_OBJ_BRIDGE, HWLOC_UNKNOWN_INDEX);
@@ -210,6 +225,7 @@ static struct { struct hwloc_backend be; VP_SEED_BACKEND_EXTRA extra; } vp_be_s;
 static struct hwloc_backend vp_be;
 #endif
 static struct hwloc_disc_component vp_comp;
+static struct hwloc_backend vp_be_misc;      /* S14: a second backend with a MISC phase (runs inside hwloc_discover, before the KEEPSTRUCTURE reconnect) */
 
 /* build seed `id` with topology flags `flags`; every type filter is KEEP_ALL unless VP_SEED_FILTER_HOOK tweaks it */
 static struct hwloc_topology *vp_seed_build(int id, unsigned long flags)
@@ -234,7 +250,7 @@ static struct hwloc_topology *vp_seed_build(int id, unsigned long flags)
   /* default filters, plus I/O and Misc kept so that S2 can carry them */
   t->type_filter[HWLOC_OBJ_BRIDGE] = t->type_filter[HWLOC_OBJ_PCI_DEVICE] = t->type_filter[HWLOC_OBJ_OS_DEVICE] = t->type_filter[HWLOC_OBJ_MISC] = HWLOC_TYPE_FILTER_KEEP_ALL;
   if (id == 5) t->type_filter[HWLOC_OBJ_MEMCACHE] = HWLOC_TYPE_FILTER_KEEP_ALL;
-  if (id == 6 || id == 7) t->type_filter[HWLOC_OBJ_L2CACHE] = HWLOC_TYPE_FILTER_KEEP_STRUCTURE;
+  if (id == 6 || id == 7 || id == 14) t->type_filter[HWLOC_OBJ_L2CACHE] = HWLOC_TYPE_FILTER_KEEP_STRUCTURE;
 #ifdef VP_SEED_FILTER_HOOK
   VP_SEED_FILTER_HOOK(t);
 #endif
@@ -251,7 +267,9 @@ static struct hwloc_topology *vp_seed_build(int id, unsigned long flags)
   vp_seed.obj[vp_seed.nobj++] = t->levels[0][0];
   vp_comp.name = id >= 200 ? "xml" : "vpseed";      /* the core treats the XML backend specially (no hwlocVersion/ProcessName infos, no memory-tier guess) */ vp_be.component = &vp_comp; vp_be.topology = t;
   vp_be.phases = HWLOC_DISC_PHASE_GLOBAL; vp_be.discover = vp_seed_discover;
-  t->backends = &vp_be; t->backend_phases = HWLOC_DISC_PHASE_GLOBAL;
+  t->backends = &vp_be; t->backend_phases = HWLOC_DISC_PHASE_GLOBAL; vp_be.next = NULL;
+  if (id == 14) { vp_be_misc.component = &vp_comp; vp_be_misc.topology = t; vp_be_misc.phases = HWLOC_DISC_PHASE_MISC; vp_be_misc.discover = vp_seed_discover_io; vp_be_misc.next = NULL;
+    vp_be.next = &vp_be_misc; t->backend_phases |= HWLOC_DISC_PHASE_MISC; }
   if (vp_seed_prepare_only) { t->state = HWLOC_TOPOLOGY_STATE_IS_INIT; vp_seed.topology = t; return t; }      /* what hwloc_topology_init + set_xml... leave: the caller runs the real hwloc_topology_load */
   struct hwloc_disc_status ds; memset(&ds, 0, sizeof ds);
   int err = hwloc_discover(t, &ds);
